@@ -2,7 +2,7 @@
 \* (thorough tier: 7 numbers) on every printed width, the empty prefix and non-integer suffixes
 SPECIFICATION Spec
 CONSTANTS
-  Heads <- HeadsAll
+  Heads <- HeadsBig
   Numbers <- NumsBig
   Widths <- WidthsAll
   Extra <- ExtraAll
